@@ -39,14 +39,19 @@ def _mathfun_real(f_real, f_complex):
     f.__name__ = f_real.__name__
     return f
 
-def _mathfun(f_real, f_complex):
+def _mathfun(f_real, f_complex, cut_above_one=False):
     def f(x, **kwargs):
         if type(x) is complex:
             return f_complex(x)
         try:
             return f_real(float(x))
         except (TypeError, ValueError):
-            return f_complex(complex(x))
+            x = complex(x)
+            # A real argument on the branch cut (1, inf) must be approached
+            # from below (counterclockwise continuity), as in the mp context
+            if cut_above_one and x.imag == 0 and x.real > 1:
+                x = complex(x.real, -0.0)
+            return f_complex(x)
     f.__name__ = f_real.__name__
     return f
 
@@ -84,8 +89,8 @@ cos = _mathfun_real(math.cos, cmath.cos)
 sin = _mathfun_real(math.sin, cmath.sin)
 tan = _mathfun_real(math.tan, cmath.tan)
 
-acos = _mathfun(math.acos, cmath.acos)
-asin = _mathfun(math.asin, cmath.asin)
+acos = _mathfun(math.acos, cmath.acos, cut_above_one=True)
+asin = _mathfun(math.asin, cmath.asin, cut_above_one=True)
 atan = _mathfun_real(math.atan, cmath.atan)
 
 cosh = _mathfun_real(math.cosh, cmath.cosh)
